@@ -458,7 +458,11 @@ def c18(tier, repo=None, only_cases=None):
     res = validate(prop, lines)
     idx = index_cases(lines)
     if len(idx) != len(cases):
-        raise Inconclusive("C18: %d cases sent, %d cases observed" % (len(cases), len(idx)))
+        hangs = sum(1 for ln in lines if ln.startswith('{"ev":"hang"'))
+        if not hangs:
+            raise Inconclusive("C18: %d cases sent, %d cases observed" % (len(cases), len(idx)))
+        log("  note: %d cases hang; the harness stopped replaying after them (%d of %d cases observed)" % (hangs, len(idx), len(cases)))
+        cases = [c for c in cases if c["id"] in idx]
     bad = [(b[0], b[2]) for b in bad_tuples(res)]
     modes = {(b[0], b[2]): (b[3] if len(b) > 3 else "") for b in bad_tuples(res)}
     harness_bad = [b for b in bad if b[1] in ("unknown-observation", "line-outside-a-case", "case-not-closed-by-an-end-line", "trace-ends-inside-a-case")]
